@@ -13,6 +13,7 @@ import Simfile.Model.Group
 import Simfile.Model.Engine
 import Simfile.Model.Load
 import Simfile.Model.Msd
+import Simfile.Model.MsdParser
 import Simfile.Model.Source
 import Simfile.Model.Convert
 import Simfile.Model.Views
@@ -449,6 +450,11 @@ def handle (j : Json) : R Json := do
     let fs1 := runWrites fs0 (given cfg.backup) ops k
     pure (Json.mkObj [("outcome", jOutcome o), ("ops", jArr jFsOp ops), ("detected", jOptStr (detectEncoding tries)),
                       ("files", jArr (fun (pc : Str × Content) => Json.arr #[jStr pc.1, jContent pc.2]) fs1)])
+  | "msd.parse" =>
+    pure (match MsdP.parse (← getBool (← field j "strict")) (← getStr (← field j "text")) with
+      | some t => Json.mkObj [("params", jArr jParam t.params), ("tokerr", jBool t.strayError)]
+      | none => Json.str "AssertionError")
+  | "msd.render" => pure (jStr (MsdP.renderParam (← getParam (← field j "param"))))
   | "msd.safe" => pure (jBool (safeParams (← getArr getParam (← field j "params")) false))
   | "load.any" =>
     let name ← getOptStr (fieldD j "name" Json.null)
